@@ -101,6 +101,19 @@ func checkPair(b *gen.Binding, v *ref.Vals, newSeq uint32, c any) *vk.Violation 
 				viol = vk.Violf(id+"/response-command", c, "%s: response command %#x, request command %#x with the response bit is %#x", id, got, reqCmd, reqCmd|0x80000000)
 				return
 			}
+			// a generated response belongs to its request: generating another response (for another
+			// request of the same type) or renumbering that one must not change this one
+			v2 := *v
+			v2.Seq = [3]uint32{v.Seq[0] ^ 0x5a5a5a5a, v.Seq[1] ^ 0x0f0f0f0f, v.Seq[2] ^ 0xa5a5a5a5}
+			p2 := gen.AsPDU(b.Fill(&v2))
+			other := p2.GenEmptyResponse()
+			if other != nil {
+				other.SetSequenceID(newSeq ^ 0xffff)
+			}
+			if resp.GetSequenceID() != p.GetSequenceID() {
+				viol = vk.Violf(id+"/response-shared-between-requests", c, "%s: after a second request of the same type generated (and renumbered) its own response, the first response reports sequence %#x instead of %#x: the responses share state", id, resp.GetSequenceID(), p.GetSequenceID())
+				return
+			}
 			rimg, err := resp.IEncode()
 			if err != nil {
 				viol = vk.Violf(id+"/response-encode", c, "%s: generated response does not encode: %v", id, err)
@@ -295,6 +308,12 @@ func TestDispatcherIDs(t *testing.T) {
 			for i := uint32(0); i <= 0x20; i++ {
 				all = append(all, i, 0x80000000|i)
 			}
+			// near misses: every single-bit flip of every id the package has a type for
+			for id := range known(proto) {
+				for bit := uint(0); bit < 32; bit++ {
+					all = append(all, id^(1<<bit))
+				}
+			}
 			for _, id := range all {
 				if seen[id] {
 					continue
@@ -305,7 +324,7 @@ func TestDispatcherIDs(t *testing.T) {
 				rec.Report(t, "id", checkID(IDCase{proto, id}))
 			}
 		}
-		rec.Exhaustive("every defined command id and every id 0..0x20 with and without the response bit, all five dispatchers")
+		rec.Exhaustive("every defined command id, every id 0..0x20 with and without the response bit and every single-bit flip of every supported id, all five dispatchers")
 	}
 	rapid.Check(t, func(t *rapid.T) {
 		proto := rapid.SampledFrom([]string{"smpp34", "cmpp20", "cmpp30", "sgip12", "smgp30"}).Draw(t, "proto")
